@@ -25,5 +25,5 @@ CHECK = {'level': 'exploration',
  'level_note': 'Trusted: ICU normalisation data and unorm2/u_strFoldCase; my validity predicate; rapidcheck; sanitizers.',
  'engines': [{'src': 'pbt/C09_names.cpp',
               'args': ['--workers-quick', str(_WQ), '--workers-thorough', str(_WT)],
-              'quick': {'workers': _WQ, 'cases': 400, 'size': 100},
+              'quick': {'workers': _WQ, 'cases': 600, 'size': 100},
               'thorough': {'workers': _WT, 'cases': 8000, 'size': 100}}]}
